@@ -439,11 +439,59 @@ pub fn classify_tape(b: &[u8]) -> Option<(String, String, &'static str, serde_js
     }
 }
 
+// --------------------------------------------------------------------------
+// re-encoding what the decoder accepts among the adversarial constructions
+// (C03's enumerated inputs: pointer chains, boundary lengths, odd counts)
+
+pub struct ReencodeConstructions;
+
+fn reencode_bytes(bytes: &[u8], mut out: Outcome) -> Outcome {
+    let first = match catch(|| Message::from_octets(bytes)) {
+        Err(p) => return out.fail("decoder-panic", p),
+        Ok(Err(_)) => return out.class("not-decodable"),
+        Ok(Ok(m)) => m,
+    };
+    out.nontrivial = true;
+    out.classes.push("decodable".into());
+    let re = match catch(|| first.to_octets()) {
+        Err(p) => return out.fail("encoder-panic", p),
+        Ok(Err(e)) => return out.fail("encoder-refuses-decoded", format!("{e:?}")),
+        Ok(Ok(b)) => b.to_vec(),
+    };
+    match catch(|| Message::from_octets(&re)) {
+        Err(p) => out.fail("decoder-panic", p),
+        Ok(Err(e)) => out.fail("reencoding-rejected", format!("{e:?} for the re-encoding ({} octets) of an accepted input of {} octets", re.len(), bytes.len())),
+        Ok(Ok(second)) if second != first => out.fail("reencoding-differs", "decode(encode(decode b)) != decode b"),
+        Ok(Ok(_)) => out,
+    }
+}
+
+impl Prop for ReencodeConstructions {
+    type Case = Construction;
+    fn name(&self) -> &'static str {
+        "reencode-constructions"
+    }
+    fn cases(&self, _tier: Tier) -> u64 {
+        0
+    }
+    fn generate(&self, _g: &mut Gen) -> Construction {
+        unreachable!("constructions are enumerated")
+    }
+    fn enumerate(&self, _tier: Tier, emit: &mut dyn FnMut(Construction)) {
+        for c in Construction::all() {
+            emit(c);
+        }
+    }
+    fn check(&self, c: &Construction) -> Outcome {
+        reencode_bytes(&c.bytes(), Outcome::pass(false).class("construction"))
+    }
+}
+
 pub fn def() -> PropertyDef {
     PropertyDef {
         id: "C04",
         level: "exploration",
-        rule: "headers: all 8192 combinations of QR x opcode x AA x TC x RD x RA x rcode (exhaustive) with a one-question one-answer body. bodies: messages with 0..20 records per section over all 18 types + unknown types/classes + special QTYPEs, names drawn from a pool of 1..6 names (shared suffixes, 63-octet labels, 255-octet names, mixed case), RDATA up to 700 octets. big: padding records of 0..65535 octets followed by names used 1..3 times as owners / in RDATA, incl. the enumerated sweep placing the first occurrence of a name at every offset 16370..16400, RDATA lengths {0,1,255,256,16383,16384,65535} and encodings around 64 KiB. Oracle for these three: from_octets(to_octets(m)) == m, the reference decoder reads the same message, and the pointer audit (every pointer targets an earlier in-line occurrence of the identical name). reencode: reference encodings with arbitrary compression, optionally one mutated byte and zero padding; if the decoder accepts b then decode(encode(decode b)) == decode b. Non-trivial: headers always; bodies = some name occurs twice; big = >16000 octets of padding or a reused name; reencode = decodable input with pointers or a mutation. Distinct by hash of the case.",
+        rule: "headers: all 8192 combinations of QR x opcode x AA x TC x RD x RA x rcode (exhaustive) with a one-question one-answer body. bodies: messages with 0..20 records per section over all 18 types + unknown types/classes + special QTYPEs, names drawn from a pool of 1..6 names (shared suffixes, 63-octet labels, 255-octet names, mixed case), RDATA up to 700 octets. big: padding records of 0..65535 octets followed by names used 1..3 times as owners / in RDATA, incl. the enumerated sweep placing the first occurrence of a name at every offset 16370..16400, RDATA lengths {0,1,255,256,16383,16384,65535} and encodings around 64 KiB. Oracle for these three: from_octets(to_octets(m)) == m, the reference decoder reads the same message, and the pointer audit (every pointer targets an earlier in-line occurrence of the identical name). reencode: reference encodings with arbitrary compression, optionally one mutated byte and zero padding; if the decoder accepts b then decode(encode(decode b)) == decode b; reencode-constructions: the same for every enumerated adversarial input of C03 (pointer chains, names at the length limits through pointers, odd counts) that the decoder accepts. Non-trivial: headers always; bodies = some name occurs twice; big = >16000 octets of padding or a reused name; reencode = decodable input with pointers or a mutation. Distinct by hash of the case.",
         assumptions: vec![
             "to_octets may refuse only section counts or RDATA beyond 65535",
             "messages are compared through the public fields (R-WIRE conversion) and through the implementation's own PartialEq",
@@ -454,6 +502,7 @@ pub fn def() -> PropertyDef {
             Box::new(crate::fuzzrun::FuzzPart { name: "fuzz-wire_roundtrip", target: "wire_roundtrip", runs_per_job: 250_000, jobs: 8, max_len: 4_096, classify: classify_tape }),
             Box::new(Bodies),
             Box::new(Reencode),
+            Box::new(ReencodeConstructions),
         ],
         budget_s: |t| t.pick(900, 10_800),
         needs_repo_bins: false,
